@@ -6,6 +6,7 @@ import (
 	"flag"
 	"fmt"
 	"io/ioutil"
+	mathrand "math/rand"
 	stdlog "log"
 	"os"
 	"runtime"
@@ -39,6 +40,9 @@ func TestMain(m *testing.M) {
 	flag.Parse()
 	// the go-metrics meter arbiter must not become a bubbled goroutine
 	metrics.NewMeter()
+	// math/rand sets its global generator up on first use (GODEBUG lookup, maps): that must not draw from the first case's task
+	// state, or the first case of a process would differ from the same case later in a batch (jittered grafanaNet backoff)
+	mathrand.Float64()
 	log.SetOutput(ioutil.Discard)
 	log.SetLevel(log.ErrorLevel)
 	log.StandardLogger().ExitFunc = func(code int) { simrt.Exit(code) }
